@@ -33,6 +33,12 @@ def stepD (_ : Unit) (ts : List String) : Unit × String :=
         let z := a[1]!
         let y : Fin n → GRat := (VecD.tab (vecOfArray n (a.extract 2 (n + 2)))).fn
         if op == "ft" then ((), " ".intercalate ((listOfVec (ftComplete z dt y)).map GRat.show_))
+        else if op == "ftu" then ((), " ".intercalate ((listOfVec (ftUpper GRat.conj z dt y)).map GRat.show_))
+        else if op == "iftu" then
+          if n % 2 = 0 then
+            let F : Fin (2 * (n / 2)) → GRat := (VecD.tab (vecOfArray (2 * (n / 2)) (a.extract 2 (n + 2)))).fn
+            ((), " ".intercalate ((listOfVec (iftUpper z dt F)).map GRat.show_))
+          else ((), "bad-op")
         else if op == "ds" then ((), " ".intercalate ((listOfVec (directSum z dt y)).map GRat.show_))
         else ((), "bad-op")
       else ((), "bad-op")
